@@ -113,7 +113,8 @@ func c05Run(ctx context.Context, l *uacp.Listener, p c05Params, cuts []int) (sig
 				gotErr = err
 				return
 			}
-			got = append(got, append([]byte(nil), b...))
+			// the slice is kept as Receive returned it: a frame must not change when later frames are received
+			got = append(got, b)
 		}
 	}()
 	prev := 0
